@@ -7,7 +7,8 @@ M = "aiortc.rtcsctptransport"
 klass(f"{M}:RTCSctpTransport",
       fields={"_reconfig_queue": "list[int]", "_reconfig_request": "opt[StreamResetOutgoingParam]",
               "_reconfig_request_seq": "int", "_reconfig_response_seq": "int", "_local_tsn": "int",
-              "_association_state": "RTCSctpTransport.State", "_outbound_stream_seq": "dict[int,int]"})
+              "_association_state": "RTCSctpTransport.State", "_outbound_stream_seq": "dict[int,int]",
+              "_inbound_streams": "dict[int,InboundStream]"})
 
 EST = "self._association_state == RTCSctpTransport.State.ESTABLISHED"
 
@@ -49,37 +50,104 @@ contract(f"{M}:RTCSctpTransport._data_channel_closed", params={"stream_id": "int
 
 MATCH = "(old(self._reconfig_request) is not None and param.response_sequence == old(self._reconfig_request.request_sequence))"
 contract(f"{M}:RTCSctpTransport._receive_reconfig_param", params={"param": "$PKT"},
-         instances=[{"PKT": "StreamResetResponseParam"}],
+         instances=[{"PKT": "StreamResetResponseParam"}, {"PKT": "StreamResetOutgoingParam"}],
          requires=["0 <= self._reconfig_request_seq < (1 << 32)", "0 <= self._local_tsn < (1 << 32)",
                    # streams of the outstanding request are registered channels (they were when queued by
                    # _data_channel_close, and only this function unregisters them); a stream listed twice still raises
-                   "implies(self._reconfig_request is not None, forall(lambda i: self._reconfig_request.streams[i] in "
-                   "self._data_channels, 0, len(self._reconfig_request.streams)))"],
+                   "@PKT=StreamResetResponseParam: implies(self._reconfig_request is not None, "
+                   "forall(lambda i: self._reconfig_request.streams[i] in "
+                   "self._data_channels, 0, len(self._reconfig_request.streams)))",
+                   # the channel table maps a stream id to the channel that carries that id
+                   "@PKT=StreamResetOutgoingParam: all_in(self._data_channels, lambda k: 0 <= k < 65536 and "
+                   "self._data_channels[k].__id is not None and self._data_channels[k].__id == k)",
+                   # the parameter was parsed from the wire: its stream list is not the transport's own reset queue
+                   "@PKT=StreamResetOutgoingParam: not same(param.streams, self._reconfig_queue)"],
          # a stream of the answered request that is no longer registered makes _data_channel_closed raise (not decided here)
-         raises={"KeyError": "?self._reconfig_request is not None and "
+         raises={"KeyError": "?isinstance(param, StreamResetResponseParam) and self._reconfig_request is not None and "
                              "param.response_sequence == self._reconfig_request.request_sequence"},
          ensures=[
              # the answered request is no longer the outstanding one
-             f"implies({MATCH}, not same(self._reconfig_request, old(self._reconfig_request)))",
+             f"@PKT=StreamResetResponseParam: implies({MATCH}, not same(self._reconfig_request, old(self._reconfig_request)))",
              # progress: streams still queued after the response are covered by a new outstanding request, so a close()
              # issued while an earlier reset was in flight is not stranded
-             f"implies({MATCH} and {EST} and old(len(self._reconfig_queue)) > 0, self._reconfig_request is not None and "
+             f"@PKT=StreamResetResponseParam: implies({MATCH} and {EST} and old(len(self._reconfig_queue)) > 0, self._reconfig_request is not None and "
              "self._reconfig_request.streams == old(self._reconfig_queue[0:135]))",
              # the streams of the answered request are closed and unregistered
-             f"implies({MATCH}, forall(lambda i: not (old(self._reconfig_request.streams[i]) in self._data_channels), 0, "
+             f"@PKT=StreamResetResponseParam: implies({MATCH}, forall(lambda i: not (old(self._reconfig_request.streams[i]) in self._data_channels), 0, "
              "old(len(self._reconfig_request.streams))))",
              # a response that matches nothing changes nothing
-             f"implies(not {MATCH}, same(self._reconfig_request, old(self._reconfig_request)) and "
+             f"@PKT=StreamResetResponseParam: implies(not {MATCH}, same(self._reconfig_request, old(self._reconfig_request)) and "
              "self._reconfig_queue == old(self._reconfig_queue))",
+             # incoming reset (the peer closes its outgoing streams): the reassembly state of every listed stream is dropped,
+             # so its next message is expected with sequence number 0 again; the request is answered
+             "@PKT=StreamResetOutgoingParam: forall(lambda i: not (param.streams[i] in self._inbound_streams), 0, len(param.streams))",
+             "@PKT=StreamResetOutgoingParam: all_in(self._inbound_streams, lambda k: k in old(self._inbound_streams) and "
+             "same(self._inbound_streams[k], old(self._inbound_streams[k])))",
+             "@PKT=StreamResetOutgoingParam: self._reconfig_response_seq == param.request_sequence",
+             # ... and the data channel on each listed stream is on its way out
+             "@PKT=StreamResetOutgoingParam: forall(lambda i: implies(param.streams[i] in self._data_channels, "
+             "self._data_channels[param.streams[i]].__readyState == 'closing' or "
+             "self._data_channels[param.streams[i]].__readyState == 'closed'), 0, len(param.streams))",
          ],
-         loops={1: {"kind": "for", "index": "i0", "invariant": [
+         loops={0: {"kind": "for", "index": "j0", "invariant": [
+             "forall(lambda i: not (param.streams[i] in self._inbound_streams), 0, j0)",
+             "all_in(self._inbound_streams, lambda k: k in old(self._inbound_streams) and "
+             "same(self._inbound_streams[k], old(self._inbound_streams[k])))",
+             "all_in(self._data_channels, lambda k: 0 <= k < 65536 and self._data_channels[k].__id is not None and "
+             "self._data_channels[k].__id == k)",
+             "forall(lambda i: implies(param.streams[i] in self._data_channels, "
+             "self._data_channels[param.streams[i]].__readyState == 'closing' or "
+             "self._data_channels[param.streams[i]].__readyState == 'closed'), 0, j0)",
+             "self._reconfig_response_seq == old(self._reconfig_response_seq)",
+             "same(self._reconfig_queue, old(self._reconfig_queue)) and not same(param.streams, self._reconfig_queue)"]},
+                1: {"kind": "for", "index": "i0", "invariant": [
              "same(self._reconfig_request, old(self._reconfig_request)) and self._reconfig_request is not None",
              "self._reconfig_request.streams == old(self._reconfig_request.streams)",
              "self._reconfig_queue == old(self._reconfig_queue) and self._reconfig_request_seq == old(self._reconfig_request_seq)",
              "forall(lambda i: not (old(self._reconfig_request.streams[i]) in self._data_channels), 0, i0)",
          ]}},
-         modifies=["self._reconfig_queue", "self._reconfig_request", "self._reconfig_request_seq",
+         modifies=["self._reconfig_queue", "content(self._reconfig_queue)", "self._reconfig_request", "self._reconfig_request_seq",
+                   "self._reconfig_response_seq", "content(self._inbound_streams)", "self._data_channel_queue",
                    "content(self._outbound_stream_seq)", "content(self._data_channels)",
                    "*RTCDataChannel._RTCDataChannel__readyState", "*list<Seq_Str>"],
          opaque_calls=["__log_debug"],
+         # C01: a stream id that is re-used after a reset starts from sequence number 0 on both sides
+         tags=["C13", "C01"])
+
+# ---------------------------------------------------------------------------- close() on this side
+DONE = "(old(channel.__readyState) == 'closing' or old(channel.__readyState) == 'closed')"
+RESET = f"(not {DONE} and {EST} and channel.__id is not None)"
+LOCAL = f"(not {DONE} and not ({EST} and channel.__id is not None))"
+DQ = "self._data_channel_queue"
+contract(f"{M}:RTCSctpTransport._data_channel_close", params={"channel": "RTCDataChannel"},
+         requires=["implies(channel.__id is not None, 0 <= channel.__id < 65536)",
+                   # a channel that has an id and is not closing/closed is registered under it (_data_channel_open,
+                   # _data_channel_add_negotiated, _data_channel_flush, _data_channel_receive register; only closing unregisters)
+                   "implies(channel.__id is not None and channel.__readyState != 'closing' and channel.__readyState != 'closed', "
+                   "channel.__id in self._data_channels)"],
+         raises={},
+         ensures=[
+             # closing twice is a no-op
+             f"implies({DONE}, channel.__readyState == old(channel.__readyState) and self._reconfig_queue == old(self._reconfig_queue) "
+             f"and len(channel.emitted) == old(len(channel.emitted)))",
+             # established association, stream already has its id: a stream reset is queued for exactly that id
+             f"implies({RESET}, channel.__readyState == 'closing' and len(self._reconfig_queue) == old(len(self._reconfig_queue)) + 1)",
+             f"implies({RESET}, self._reconfig_queue[len(self._reconfig_queue) - 1] == channel.__id)",
+             f"implies({RESET}, forall(lambda i: self._reconfig_queue[i] == old(self._reconfig_queue[i]), 0, old(len(self._reconfig_queue))))",
+             # nothing of the channel is on the wire yet (no association, or its id not yet assigned - close() right after
+             # create): it is closed locally at once, unregistered, and none of its queued messages stays behind
+             f"implies({LOCAL}, channel.__readyState == 'closed' and self._reconfig_queue == old(self._reconfig_queue))",
+             f"implies({LOCAL} and channel.__id is not None, not (channel.__id in self._data_channels))",
+             f"implies({LOCAL}, forall(lambda i: not same({DQ}[i][0], channel), 0, len({DQ})))",
+             # no other channel is touched
+             "all_in(self._data_channels, lambda k: k in old(self._data_channels) and "
+             "same(self._data_channels[k], old(self._data_channels[k])))",
+             "all_in(old(self._data_channels), lambda k: implies(channel.__id is None or k != channel.__id, k in self._data_channels))",
+         ],
+         locals={"new_queue": "deque[tuple[RTCDataChannel,int,bytes]]"},
+         loops={0: dict(kind="for", index="i0", invariant=[
+             "forall(lambda i: not same(new_queue[i][0], channel), 0, len(new_queue))",
+             "channel.__readyState == 'closing' and self._reconfig_queue == old(self._reconfig_queue)"])},
+         modifies=["content(self._reconfig_queue)", "self._data_channel_queue", "content(self._data_channels)",
+                   "channel.__readyState", "content(channel.emitted)"],
          tags=["C13"])
